@@ -153,8 +153,8 @@ Definition gnmi_update1 (tr : tree noti) (n : noti) : ures :=
                     match first_val old with
                     | None => UPanic                                     (* old.Update[0] *)
                     | Some ov =>
-                        if negb (n_atomic n) && Z.eqb ov v0
-                        then URes tr' [] false                           (* suppressed: same value *)
+                        if negb (n_atomic n) && negb (n_atomic old) && Z.eqb ov v0
+                        then URes tr' [] false                           (* suppressed: same scalar value *)
                         else URes tr' [n] false
                     end
                 end
